@@ -85,6 +85,7 @@ type world struct {
 	p       probe
 	arrived chan struct{} // client tells the handler that the flushed chunk arrived
 	stream  bool          // the stack under test is expected to stream (no buffer in it)
+	head    bool          // the next exchanges are HEAD requests
 	mu      sync.Mutex
 }
 
@@ -302,6 +303,8 @@ func (w *world) exchange(body []byte, wantEarly string) result {
 	if len(body) > 0 {
 		method = "POST"
 		hdr = fmt.Sprintf("Content-Length: %d\r\n", len(body))
+	} else if w.head {
+		method = "HEAD"
 	}
 	fmt.Fprintf(c, "%s /c20?x=1 HTTP/1.1\r\nHost: front.example\r\nConnection: close\r\n%s\r\n%s", method, hdr, body)
 	var buf bytes.Buffer
@@ -441,6 +444,37 @@ func runStack(w *world, ks []string, verbose bool, base map[behaviour]result, re
 		return
 	}
 	w.handler.Store(&h)
+	// HEAD exchanges: the handler behaves as for GET (announces a length, writes its payload); status and headers -
+	// the announced Content-Length above all - must come through as they do from the bare handler
+	if !verbose {
+		for _, b := range behaviours() {
+			if b.mode != 0 || b.body == 0 {
+				continue
+			}
+			bare := w.inner()
+			w.handler.Store(&bare)
+			w.reset(b)
+			w.head = true
+			want := w.exchange(nil, "")
+			w.handler.Store(&h)
+			w.reset(b)
+			got := w.exchange(nil, "")
+			w.head = false
+			rep.Evaluations++
+			rep.Count("head_exchanges")
+			what := map[string]any{"engine": "enum", "part": "c20", "stack": strings.Join(ks, ">"), "verbose": verbose, "behaviour": b.String(), "mode": "transparent"}
+			switch {
+			case got.status != want.status:
+				rep.Violate("C20:status-altered:head", fmt.Sprintf("[%s] HEAD, %v: status %d through the stack, %d from the bare handler", name, b, got.status, want.status), what)
+			case got.header.Get("Content-Length") != want.header.Get("Content-Length") && b.hdr == 2:
+				rep.Violate("C20:headers-altered:head", fmt.Sprintf("[%s] HEAD, %v: Content-Length %q through the stack, %q from the bare handler", name, b, got.header.Get("Content-Length"), want.header.Get("Content-Length")), what)
+			case sig(got.header, false) != sig(want.header, false):
+				rep.Violate("C20:headers-altered:head", fmt.Sprintf("[%s] HEAD, %v: headers %s through the stack, %s from the bare handler", name, b, sig(got.header, false), sig(want.header, false)), what)
+			case len(got.body) != 0:
+				rep.Violate("C20:body-altered:head", fmt.Sprintf("[%s] HEAD, %v: %d body bytes on the wire", name, b, len(got.body)), what)
+			}
+		}
+	}
 	for _, b := range behaviours() {
 		w.reset(b)
 		early := ""
@@ -697,7 +731,7 @@ func Run(tier string, sh lib.Shard, rep *lib.Report) {
 	rep.Bounds["handler_behaviours"] = len(behaviours())
 	rep.Rule = "every stack of depth <= max over {stream, trace, connlimit, ratelimit, cbreaker, roundrobin, rebalancer(roundrobin), buffer} x every handler behaviour (status incl. implicit x header set x body chunking, flush between writes, hijack) served by a real net/http server to a raw TCP client, compared with the bare handler on the same server; every stack also in front of a minimal ResponseWriter (no Hijacker/Flusher/CloseNotifier) with a handler that probes for those capabilities; per stack and position one configuration in which exactly that middleware intervenes; non-trivial = exchanges through stacks of depth >= 2"
 	rep.Assume("frozen clock; Content-Length/Transfer-Encoding framing headers chosen by net/http are not compared unless the handler set Content-Length itself")
-	rep.Require("transparent_exchanges", "interventions_checked", "streamed_chunks_observed_early", "hijacked_exchanges", "early_hints_exchanges", "exchanges_on_a_minimal_writer")
+	rep.Require("transparent_exchanges", "interventions_checked", "streamed_chunks_observed_early", "hijacked_exchanges", "early_hints_exchanges", "exchanges_on_a_minimal_writer", "head_exchanges")
 	w := newWorld()
 	defer w.srv.Close()
 	base := baseline(w, rep)
